@@ -11,8 +11,10 @@ that also yields the expected converted values, names and spans.  The registered
 really invoked through Match.run() with a stub context.
 
 Part (b), engine E2: breadth-first search over operation histories on a real StepRegistry + the
-real matcher factory, stepped in lock-step with a reference registry; all lookups (step type x
-text) after every operation; canonical-state deduplication, one sweep per BFS level.
+real matcher factory, stepped in lock-step with a reference registry.  Lookups L(step type, text)
+are operations as well: they are executed on the live registry after every operation of every
+history (registrations and lookups interleaved) and each is checked to be a self-loop of the
+canonical state; canonical-state deduplication, one sweep per BFS level.
 """
 import itertools
 from vlib.core import digest
@@ -29,9 +31,16 @@ RULE = ("(a) patterns = token sequences of length 1-3 (thorough: also length 4 o
         "rejected. (b) BFS over histories of {register(type, pattern in a 6-pattern pool, f1..f3), "
         "use_step_matcher(4 kinds), module boundary use_default_step_matcher(), use_current_step_matcher_as_default()} "
         "to depth 3 (quick, 42 operations) / depth 4 over 42 operations and depth 3 over 78 operations (thorough); "
-        "after every operation the exception, the matcher factory state, the number of definitions per type and all "
-        "36 lookups (4 step types x 9 texts, function really invoked) are compared with a reference registry; states "
-        "deduplicated by (per-type ordered (pattern, kind, function) lists, current matcher, default matcher).")
+        "after every operation the exception, the matcher factory state and the number of definitions per type are "
+        "compared with a reference registry. Lookups are operations of the alphabet too: L(step type, text) = "
+        "registry.find_match (+ Match.run, function really invoked) and registry.find_step_definition for 4 step "
+        "types x 9 texts, executed on the LIVE registry after every operation of every history (so every later "
+        "registration and lookup runs on a registry that has already served lookups) and compared with the reference. "
+        "States are deduplicated by (per-type ordered (pattern, kind, function) lists, current matcher, default "
+        "matcher): that determines all futures because registration and lookup read nothing else; a lookup must not "
+        "write any of it, therefore L-edges are not expanded but each one is CHECKED to be a self-loop on the real "
+        "objects (identity snapshot of every per-type list - keys, length, the matcher objects in order - and of the "
+        "factory before == after every single find_match / find_step_definition).")
 ASSUMPTIONS = [
     "field values, literals and prefixes/suffixes are ASCII without 0x/0b/0o prefixes; the languages of {:d} and "
     "{:f} include an optional sign out of '+', '-', ' ' (parse's format-spec sign set; a blank sign only arises "
@@ -680,47 +689,117 @@ def describe_op(op):
     return {"B": "use_default_step_matcher()", "D": "use_current_step_matcher_as_default()"}[op[0]]
 
 
+_STEPS = {}
+
+
+def lookup_step(t, text):
+    """the model Step of a lookup (built once per worker; find_match only reads step_type and name)"""
+    key = (t, text)
+    st = _STEPS.get(key)
+    if st is None:
+        st = _STEPS[key] = _B["Step"]("c11.feature", 1, t.title(), t, text)
+    return st
+
+
+LOOKUPS = tuple((t, text) for t in TYPES for text in LOOKUP_TEXTS)
+
+
+def registry_snapshot(reg):
+    """everything a later registration or lookup depends on, by object identity: the per-type lists (keys, lengths,
+    the very matcher objects in order) and the matcher factory.  Only ever compared inside one execution."""
+    fac = _B["matchers"].get_step_matcher_factory()
+    return (tuple((t, tuple(id(m) for m in reg.steps[t])) for t in sorted(reg.steps)),
+            id(fac.current_matcher), id(fac.default_matcher))
+
+
+def snapshot_diff(t, s0, s1):
+    """which part of the registry a lookup of step type t changed"""
+    if s0[1:] != s1[1:]:
+        return "matcher-factory"
+    d0, d1 = dict(s0[0]), dict(s1[0])
+    changed = [k for k in sorted(set(d0) | set(d1)) if d0.get(k) != d1.get(k)]
+    if changed == [t]:
+        return "list-of-the-looked-up-type"
+    if changed == ["step"]:
+        return "generic-list"
+    return "other-lists"
+
+
+def touch_lookups(reg):
+    """the L-edges of an intermediate state of a replayed history, executed on the live registry (they were compared
+    with the reference and checked for being self-loops when that prefix was the expanded state)"""
+    for (t, text) in LOOKUPS:
+        step = lookup_step(t, text)
+        reg.find_match(step)
+        reg.find_step_definition(step)
+
+
 def all_lookups(reg, ref, v, where):
-    Step = _B["Step"]
+    """the lookup operations L(step type, text) out of the current state: registry.find_match (+ Match.run) and
+    registry.find_step_definition on the LIVE registry, one after the other.  Each is compared with the reference
+    registry and checked for being a self-loop (registry_snapshot before == after)."""
     obs = []
     ncomp = 0
-    for t in TYPES:
-        for text in LOOKUP_TEXTS:
-            want = ref.lookup(t, text)
-            m = reg.find_match(Step("c11.feature", 1, t.title(), t, text))
-            if m is None:
-                got = None
+    snap = registry_snapshot(reg)
+    for (t, text) in LOOKUPS:
+        step = lookup_step(t, text)
+        lt = "generic" if t == "step" else "typed"
+        want = ref.lookup(t, text)
+        m = reg.find_match(step)
+        snap1 = registry_snapshot(reg)
+        if snap1 != snap:
+            v.append(({"subcheck": "history.lookup", "clause": "lookup-changed-registry", "api": "find_match",
+                       "lookup": lt, "changed": snapshot_diff(t, snap, snap1)},
+                      "%s: lookup find_match(%s, %r) changed the registry: per-type definition counts %r -> %r"
+                      % (where, t, text, [(k, len(x)) for (k, x) in snap[0]], [(k, len(x)) for (k, x) in snap1[0]])))
+            snap = snap1
+        d = reg.find_step_definition(step)
+        snap1 = registry_snapshot(reg)
+        if snap1 != snap:
+            v.append(({"subcheck": "history.lookup", "clause": "lookup-changed-registry",
+                       "api": "find_step_definition", "lookup": lt, "changed": snapshot_diff(t, snap, snap1)},
+                      "%s: lookup find_step_definition(%s, %r) changed the registry: per-type definition counts "
+                      "%r -> %r" % (where, t, text, [(k, len(x)) for (k, x) in snap[0]],
+                                    [(k, len(x)) for (k, x) in snap1[0]])))
+            snap = snap1
+        dname = None if d is None else getattr(d.func, "__name__", repr(d.func))
+        if m is None:
+            got = None
+        else:
+            ran = run_match(m)
+            calls = ran[2]
+            if ran[0] != "called" or len(calls) != 1:
+                got = ("bad-run", ran[0], ran[1], len(calls))
             else:
-                ran = run_match(m)
-                calls = ran[2]
-                if ran[0] != "called" or len(calls) != 1:
-                    got = ("bad-run", ran[0], ran[1], len(calls))
-                else:
-                    got = (calls[0][0], calls[0][1], tuple(sorted((k, typed(x)) for k, x in calls[0][2].items())))
-            obs.append(got)
-            lt = "generic" if t == "step" else "typed"
-            if want is None:
-                if got is not None:
-                    v.append(({"subcheck": "history.lookup", "clause": "bound-although-nothing-matches",
-                               "lookup": lt},
-                              "%s: lookup (%s, %r) -> %r, but no registered definition of that type or generic "
-                              "matches the text" % (where, t, text, got)))
-                continue
-            f, kwsets, comp, src = want
-            if comp != "single":
-                ncomp += 1
-            if got is None:
-                v.append(({"subcheck": "history.lookup", "clause": "not-bound", "lookup": lt, "winner": src,
-                           "competition": comp},
-                          "%s: lookup (%s, %r) -> nothing, expected f%d" % (where, t, text, f + 1)))
-            elif got[0] != "f%d" % (f + 1):
-                v.append(({"subcheck": "history.lookup", "clause": "wrong-definition", "lookup": lt, "winner": src,
-                           "competition": comp},
-                          "%s: lookup (%s, %r) -> %r, expected f%d (%s, %s)"
-                          % (where, t, text, got, f + 1, src, comp)))
-            elif got[1] != () or got[2] not in kwsets:
-                v.append(({"subcheck": "history.lookup", "clause": "wrong-arguments", "lookup": lt},
-                          "%s: lookup (%s, %r) -> %r, expected keyword arguments %r" % (where, t, text, got, kwsets)))
+                got = (calls[0][0], calls[0][1], tuple(sorted((k, typed(x)) for k, x in calls[0][2].items())))
+        obs.append((got, dname))
+        wname = None if want is None else "f%d" % (want[0] + 1)
+        if dname != wname:
+            v.append(({"subcheck": "history.lookup", "clause": "find_step_definition-differs", "lookup": lt},
+                      "%s: find_step_definition(%s, %r) -> definition of %r, expected %r"
+                      % (where, t, text, dname, wname)))
+        if want is None:
+            if got is not None:
+                v.append(({"subcheck": "history.lookup", "clause": "bound-although-nothing-matches",
+                           "lookup": lt},
+                          "%s: lookup (%s, %r) -> %r, but no registered definition of that type or generic "
+                          "matches the text" % (where, t, text, got)))
+            continue
+        f, kwsets, comp, src = want
+        if comp != "single":
+            ncomp += 1
+        if got is None:
+            v.append(({"subcheck": "history.lookup", "clause": "not-bound", "lookup": lt, "winner": src,
+                       "competition": comp},
+                      "%s: lookup (%s, %r) -> nothing, expected f%d" % (where, t, text, f + 1)))
+        elif got[0] != "f%d" % (f + 1):
+            v.append(({"subcheck": "history.lookup", "clause": "wrong-definition", "lookup": lt, "winner": src,
+                       "competition": comp},
+                      "%s: lookup (%s, %r) -> %r, expected f%d (%s, %s)"
+                      % (where, t, text, got, f + 1, src, comp)))
+        elif got[1] != () or got[2] not in kwsets:
+            v.append(({"subcheck": "history.lookup", "clause": "wrong-arguments", "lookup": lt},
+                      "%s: lookup (%s, %r) -> %r, expected keyword arguments %r" % (where, t, text, got, kwsets)))
     return obs, ncomp
 
 
@@ -736,7 +815,7 @@ def history_case(case):
     succ = []
     nontrivial = 0
     trans = 0
-    vall = []
+    ledges = 0
     dg = []
     outs = {}
     for oi, op in enumerate(ops):
@@ -749,12 +828,14 @@ def history_case(case):
         scratch = []
         for k, h in enumerate(hist):
             step_both(reg, ref, h, scratch, hist[:k])      # validated when that prefix was expanded
+            touch_lookups(reg)                             # ... followed by its L-edges, on the live registry
         parent = ref.canon()
         exp = ref.expect(op)[0] if op[0] == "R" else op[0]
         exc, after = step_both(reg, ref, op, v, hist)
-        where = "history %r" % ([describe_op(o) for o in hist + (op,)],)
+        where = "history %r (every operation followed by all lookups)" % ([describe_op(o) for o in hist + (op,)],)
         obs, ncomp = all_lookups(reg, ref, v, where)
         trans += 1
+        ledges += 2 * len(LOOKUPS)
         canon = ref.canon()
         if exp in ("ignored", "ambiguous") or ncomp:
             nontrivial += 1
@@ -766,7 +847,8 @@ def history_case(case):
         for desc, msg in v:
             results.append({"case": (alpha, hist, ("op", oi)), "v": [(desc, msg)], "n": 0})
     reset_state()
-    main = {"case": case, "n": trans, "dg": dg, "st": {"states": 0, "transitions": trans, "traces": trans}}
+    main = {"case": case, "n": trans, "dg": dg,
+            "st": {"states": 0, "transitions": trans, "traces": trans, "lookup_edges": ledges}}
     if nontrivial:
         main["nt"] = digest((alpha, hist))
     if mode == "expand":
@@ -868,3 +950,6 @@ def run(ctx):
         ctx.guard(any(o[1] == need for o in hist_outs), "history outcome %r exercised" % need)
     ctx.guard(any(o[3] == "competing" for o in hist_outs), "lookups with competing definitions exercised")
     ctx.guard(ctx.st["transitions"] > 10000, "at least 10000 transitions")
+    ctx.note("lookup_edges_checked_as_self_loops", int(ctx.st.get("lookup_edges", 0)))
+    ctx.guard(ctx.st.get("lookup_edges", 0) >= 2 * len(LOOKUPS) * ctx.st["transitions"],
+              "every state reached by a transition had all its lookup edges executed on the live registry")
